@@ -23,6 +23,8 @@ import (
 //vp:all stub (*github.com/go-jose/go-jose/v4/jwt.NestedJSONWebToken).Decrypt = vpDecrypt
 //vp:all stub (*golang.org/x/oauth2.Config).TokenSource = vpTokenSource
 //vp:all stub (*github.com/coreos/go-oidc/v3/oidc.Provider).UserInfo = vpUserInfo
+//vp:all stub (*github.com/coreos/go-oidc/v3/oidc.Provider).Verifier = vpProviderVerifier
+//vp:all stub (*github.com/coreos/go-oidc/v3/oidc.IDTokenVerifier).Verify = vpOfflineVerify
 //vp:all stub time.Now = vpNow
 //vp:all stub github.com/go-jose/go-jose/v4.NewSigner = vpNewSigner
 //vp:all stub github.com/go-jose/go-jose/v4.NewEncrypter = vpNewEncrypter
@@ -77,6 +79,7 @@ func vpResetJose() {
 	vpTokKind, vpTokSignedBy, vpTokEncBy, vpTokAlgs = 0, 0, 0, nil
 	vpClaimsKeyLog, vpIdpToken, vpIdpCalls = nil, "", 0
 	vpIdpTimeouts, vpIdpHonoured = 0, false
+	vpOfflineVerifies = 0
 	// the clock keeps running across harness set-up: the presentation happens at vpCurTime, which is
 	// not before anything the package did at initialisation
 	if !vpInitCaptured {
@@ -415,6 +418,10 @@ func vpSymClaims(n int) {
 	vpTokNbf = vpSymDate("nbf")
 	vpTokIat = vpSymDate("iat")
 	vpTokCustom = customClaims{RemoteServer: vpStringN("c-server", n), ClientIP: vpStringN("c-ip", n), AccessToken: vpStringN("c-at", n)}
+	// the access token may be a JWT itself (keycloak, azure, okta hand out such access tokens)
+	if vpBool("access-token-is-jwt-shaped") {
+		vpTokCustom.AccessToken = "h." + vpTokCustom.AccessToken + ".s"
+	}
 	// a token may have been issued with an empty recorded address or host (e.g. an X-Forwarded-For whose
 	// first element is empty): the binding must then be to the empty string, not to whatever was there
 	if vpBool("c-ip-empty") {
@@ -431,6 +438,20 @@ func (t vpTS) Token() (*oauth2.Token, error) { return t.tok, nil }
 
 func vpTokenSource(c *oauth2.Config, ctx context.Context, t *oauth2.Token) oauth2.TokenSource {
 	return vpTS{t}
+}
+
+// go-oidc's offline verification (signature against the provider's published keys, issuer, expiry; the
+// audience check unless switched off): it says nothing about whether the provider still honours the
+// token (revocation, logout) — no request is made.
+var vpOfflineVerifies int
+
+func vpProviderVerifier(p *oidc.Provider, c *oidc.Config) *oidc.IDTokenVerifier { return &oidc.IDTokenVerifier{} }
+func vpOfflineVerify(v *oidc.IDTokenVerifier, ctx context.Context, raw string) (*oidc.IDToken, error) {
+	vpOfflineVerifies++
+	if !vpBool("token-verifies-offline-" + vpItoa(vpOfflineVerifies)) {
+		return nil, errors.New("vp: oidc: failed to verify signature")
+	}
+	return &oidc.IDToken{Subject: vpStringN("offline-sub", 2)}, nil
 }
 
 // UserInfo: error unless the IdP honours the access token.
